@@ -97,8 +97,14 @@ def build(root, inst, k):
         d = os.path.join(root, p)
         os.makedirs(d, exist_ok=True)
         with open(os.path.join(d, "COND"), "w") as f:
-            f.write("".join(srcs))
+            # COND files are Python: some import helpers of their own (pure-Python and C-extension modules that `cond` itself
+            # has no reason to have loaded); what a file imports has no bearing on the verdict about the graph
+            f.write((COND_IMPORTS[k % len(COND_IMPORTS)] if k % 4 == 1 else "") + "".join(srcs))
     return pk
+
+
+COND_IMPORTS = ["import csv, cmath\n", "import bz2\nimport array, mmap\n", "from xml.parsers import expat\nimport unicodedata\n",
+                "import lzma, csv\n", "import colorsys, cmath\n"]
 
 
 NAMED_ND = 6
@@ -155,6 +161,26 @@ def named_worker(job):
                 "stderr": err[-300:] if check.startswith(("other", "crash")) else "", "files": files}
     finally:
         shutil.rmtree(dd, ignore_errors=True)
+
+
+def deep_projects():
+    """Long dependency chains (a sweep of chained experiments, a pipeline generated by a loop in the COND file): complete,
+    dangling at the far end, closed into a cycle.  The declarative verdict of a chain does not depend on its length, so each is
+    judged as the three-task chain it collapses to (t1 -> t2 -> t3 [-> undefined | -> t1])."""
+    out = []
+    for n in (400, 1200, 3000):
+        for tail, d3 in (("[]", []), ("['//:nope']", [4]), ("[':c%d' % (N - 1)]", [1])):
+            src = ("N = %d\nfor i in range(N):\n    run_command(name='c%%d' %% i, run='true', deps=[':c%%d' %% (i - 1)] if i else %s)\n" % (n, tail))
+            out.append({"files": {"": src}, "d": [[2], [3], d3], "t": 1, "target": "//:c%d" % (n - 1), "n": n})
+    return out
+
+
+def deep_worker(job):
+    spec, k = job
+    files, d_, t, tgt, _k = spec["files"], spec["d"], spec["t"], spec["target"], k
+    r = named_worker((files, d_, t, tgt, k))
+    r["n"] = spec["n"]
+    return r
 
 
 def cached_projects():
@@ -441,6 +467,23 @@ def main(tier):
                               "names reused across packages: %s ; graph deps=%s target=t%d: cond run --check reported %r %s" % (
                                   {k_: v_.replace("\n", " ; ") for k_, v_ in r["files"].items()}, r["d"], r["t"], r["check"], r["stderr"]))
         rep.cov["named_projects"] = len(nrows)
+    # long chains (judged as the three-task chain they collapse to)
+    dps = deep_projects()
+    drows = C.fork_map(deep_worker, [(sp_, 3 * 10 ** 6 + i) for i, sp_ in enumerate(dps)], timeout=300)
+    drows = [r for r in drows if r is not None and "_error" not in r and "_timeout" not in r]
+    if len(drows) != len(dps):
+        rep.machinery("deep-chain family: %d of %d projects observed" % (len(drows), len(dps)))
+    elif drows:
+        dverd, _dtr = judge(drows)
+        for r in drows:
+            bad = sorted(set(dverd[r["id"]]["viol"]) & CLAUSES)
+            if bad:
+                rep.violation({"clause": bad[0], "observed": r["check"], "proj": "", "family": "long chains"},
+                              {"named": {"files": r["files"], "d": r["d"], "t": r["t"], "target": "//:c%d" % (r["n"] - 1), "nd": 3}, "k": r["id"]},
+                              "a chain of %d tasks (%s): cond run --check reported %r %s" % (
+                                  r["n"], {0: "complete", 4: "dangling at the far end", 1: "closed into a cycle"}[(r["d"][2] or [0])[0]],
+                                  r["check"], r["stderr"]))
+        rep.cov["deep_chain_projects"] = len(drows)
     # the same verdicts whatever is cached (recorded versions, older commits, --this-commit / --at-least / --again)
     cps = cached_projects()
     crows = C.fork_map(cached_worker, [(sp_, 2 * 10 ** 6 + i) for i, sp_ in enumerate(cps)], timeout=200)
@@ -482,8 +525,8 @@ def replay(path):
         verdicts, _ = judge(rows)
     elif "named" in body["scenario"]:
         nm = body["scenario"]["named"]
-        rows = C.fork_map(named_worker, [(nm["files"], nm["d"], nm["t"], "//:top", body["scenario"]["k"])])
-        verdicts, _ = judge(rows, nd=NAMED_ND)
+        rows = C.fork_map(named_worker, [(nm["files"], nm["d"], nm["t"], nm.get("target", "//:top"), body["scenario"]["k"])])
+        verdicts, _ = judge(rows, nd=nm.get("nd", NAMED_ND))
     else:
         inst, k = body["scenario"]["inst"], body["scenario"]["k"]
         rows = C.fork_map(chunk_worker, [([inst], k, True)])[0]
